@@ -1,11 +1,107 @@
 # C14: the .orc parser is total
-import re
+import os, re
 from .. import core, runner
 
 PROP = 'C14'
 SRC = ['contracts/parse.c']
-F = 'orc/orcparse.c'
+GEN_PARSE = os.path.join(core.VERIF, 'out', 'gen', 'orcparse_nv.c')
+
+
+def split_args(txt):
+    args, depth, cur, instr = [], 0, '', False
+    i = 0
+    while i < len(txt):
+        ch = txt[i]
+        if instr:
+            cur += ch
+            if ch == '\\':
+                cur += txt[i + 1]
+                i += 1
+            elif ch == '"':
+                instr = False
+        elif ch == '"':
+            instr = True
+            cur += ch
+        elif ch in '([':
+            depth += 1
+            cur += ch
+        elif ch in ')]':
+            depth -= 1
+            cur += ch
+        elif ch == ',' and depth == 0:
+            args.append(cur.strip())
+            cur = ''
+        else:
+            cur += ch
+        i += 1
+    if cur.strip():
+        args.append(cur.strip())
+    return args
+
+
+def gen_parse_source():
+    """Mechanical, must-fire extraction of orc/orcparse.c (re-done on every run): dfcc cannot instrument variadic
+    functions, so orc_parse_add_error(parser, fmt, ...) becomes the non-variadic orc_parse_add_error_nv(parser, fmt);
+    the dropped variadic arguments are still EVALUATED at each call site ((void)(arg), ...) so their memory safety
+    stays an obligation; they only fed the error text (vasprintf is a stub).  Nothing else is changed."""
+    src = open(os.path.join(core.REPO, 'orc/orcparse.c')).read()
+    n = 0
+    proto = 'static void orc_parse_add_error (OrcParser *parser, const char *format, ...);'
+    if proto not in src:
+        raise core.ToolError('extraction rule 1 (prototype of orc_parse_add_error) did not fire')
+    src = src.replace(proto, 'static void orc_parse_add_error_nv (OrcParser *parser, const char *format);')
+    head = 'orc_parse_add_error (OrcParser *parser, const char *format, ...)\n{'
+    if head not in src:
+        raise core.ToolError('extraction rule 2 (definition of orc_parse_add_error) did not fire')
+    src = src.replace(head, 'orc_parse_add_error_nv (OrcParser *parser, const char *format)\n{')
+    for old, new in (('    va_start (var_args, format);\n', '    /* va_start dropped by extraction */\n'),
+                     ('    va_end (var_args);\n', '    /* va_end dropped by extraction */\n')):
+        if src.count(old) != 1:
+            raise core.ToolError('extraction rule 3 (%r) did not fire exactly once' % old)
+        src = src.replace(old, new)
+    out = ''
+    pos = 0
+    pat = re.compile(r'orc_parse_add_error \(')
+    while True:
+        m = pat.search(src, pos)
+        if not m:
+            out += src[pos:]
+            break
+        # find matching paren
+        i = m.end()
+        depth = 1
+        instr = False
+        while depth:
+            ch = src[i]
+            if instr:
+                if ch == '\\':
+                    i += 1
+                elif ch == '"':
+                    instr = False
+            elif ch == '"':
+                instr = True
+            elif ch == '(':
+                depth += 1
+            elif ch == ')':
+                depth -= 1
+            i += 1
+        args = split_args(src[m.end():i - 1])
+        if len(args) < 2:
+            raise core.ToolError('extraction rule 4: unexpected call shape')
+        extra = ''.join('(void)(%s), ' % a for a in args[2:])
+        out += src[pos:m.start()] + '(%sorc_parse_add_error_nv (%s, %s))' % (extra, args[0], args[1])
+        pos = i
+        n += 1
+    if n < 20:
+        raise core.ToolError('extraction rule 4 fired only %d times' % n)
+    os.makedirs(os.path.dirname(GEN_PARSE), exist_ok=True)
+    with open(GEN_PARSE, 'w') as f:
+        f.write(out)
+    return n
+
+F = GEN_PARSE
 ASSUME = [
+    'parser-state units (handlers, line layer, error recording) run without --pointer-overflow-check (intractable with it); dereferences are still checked',
     'libc string functions are assumed models (/verif/contracts/parse.c): strcmp/strtol/strtod return abstracted (nondeterministic) results and only require readable arguments; strlen/strchr on the source text are modelled through a ghost first-NUL position; strdup/vasprintf return fresh NUL-terminated buffers; snprintf NUL-terminates inside its buffer',
     'orc_debug_print is an empty stub (logging has no effect on verified state)',
     'malloc failure is not explored for libc-internal allocations (strdup, vasprintf); orc_malloc aborts on failure',
@@ -13,47 +109,63 @@ ASSUME = [
     'program-construction API (orc_program_*) is replaced by the contracts in /verif/contracts/program_api.h; those contracts are enforced on the real bodies by check C05',
 ]
 
-PTR = lambda e, base: '__CPROVER_same_object(%s, %s)' % (e, base)
-OFFE = lambda e, base: '((long)((unsigned long)(%s) - (unsigned long)(%s)))' % (e, base)
-LINE_INV = ('line->end == g_buf + g_len && ' + PTR('line->p', 'g_buf') + ' && ' + OFFE('line->p', 'g_buf') + ' >= 0 && ' +
-            OFFE('line->p', 'g_buf') + ' <= g_len && ' + OFFE('line->p', 'g_buf') + ' >= ' + OFFE('__CPROVER_loop_entry(line->p)', 'g_buf'))
+# --pointer-overflow-check makes the parser-state units intractable (5 s -> >15 min); out-of-bounds DEREFERENCES are
+# still obligations (--pointer-check, --bounds-check); pure pointer-arithmetic overflow is not checked for these units
+CHECKS_NPO = [c for c in core.DEFAULT_CHECKS if c != '--pointer-overflow-check']
+UL = lambda e: '(unsigned long)(%s)' % e
+INB = lambda e, extra: '__CPROVER_same_object(%s, line->end) && %s <= %s%s' % (e, UL(e), UL('line->end'), extra)
+LINE_INV = (INB('line->p', '') + ' && ' + UL('line->p') + ' >= ' + UL('__CPROVER_loop_entry(line->p)'))
+DECR = UL('line->end') + ' - ' + UL('line->p')
 
 
 def units(tier, seed, only=None):
+    gen_parse_source()
     us = []
     us.append(core.Unit('orc_line_skip_blanks', SRC, 'h_skip_blanks', enforce='orc_line_skip_blanks',
                         loops=[{'function': 'orc_line_skip_blanks', 'file': F, 'anchor': 'while (orc_line_has_data (line) && orc_line_is_blank (line))',
                                 'invariants': LINE_INV, 'assigns': 'line->p',
-                                'decreases': 'g_len - ' + OFFE('line->p', 'g_buf')}]))
+                                'decreases': DECR}]))
     us.append(core.Unit('orc_line_advance', SRC, 'h_advance', enforce='orc_line_advance',
                         loops=[{'function': 'orc_line_advance', 'file': F, 'anchor': 'while (orc_line_has_data (line) &&',
                                 'invariants': LINE_INV, 'assigns': 'line->p',
-                                'decreases': 'g_len - ' + OFFE('line->p', 'g_buf')}]))
+                                'decreases': DECR}]))
     us.append(core.Unit('orc_line_add_token', SRC, 'h_add_token', enforce='orc_line_add_token',
                         replace=['orc_line_advance']))
     us.append(core.Unit('orc_line_parse_tokens', SRC, 'h_parse_tokens', enforce='orc_line_parse_tokens',
                         replace=['orc_line_skip_blanks', 'orc_line_add_token'],
                         loops=[{'function': 'orc_line_parse_tokens', 'file': F, 'anchor': 'while (line->p < line->end)',
-                                'invariants': 'line->end == g_buf + g_len && ' + PTR('line->p', 'g_buf') + ' && ' +
-                                OFFE('line->p', 'g_buf') + ' >= 0 && ' + OFFE('line->p', 'g_buf') + ' <= g_len + 1 && '
-                                'line->n_tokens >= 0 && line->n_tokens <= 16 && g_buf[g_len] == 0 && '
-                                '((0 <= g_tk && g_tk < line->n_tokens) ==> (' + PTR('line->tokens[g_tk]', 'g_buf') + ' && ' +
-                                OFFE('line->tokens[g_tk]', 'g_buf') + ' >= 0 && ' + OFFE('line->tokens[g_tk]', 'g_buf') + ' <= g_len))',
-                                'assigns': '__CPROVER_object_whole(line), __CPROVER_object_whole(g_buf)',
-                                'decreases': 'g_len + 1 - ' + OFFE('line->p', 'g_buf')}]))
+                                'invariants': 'line->end == __CPROVER_loop_entry(line->end) && ' + INB('line->p', ' + 1') + ' && '
+                                'line->n_tokens >= 0 && line->n_tokens <= 16 && *line->end == 0 && '
+                                '(line->n_tokens > 0 ==> (' + INB('line->tokens[0]', '') + ')) && '
+                                '((0 <= g_tk && g_tk < line->n_tokens) ==> (' + INB('line->tokens[g_tk]', '') + '))',
+                                'assigns': '__CPROVER_object_whole(line), __CPROVER_object_whole(line->end)',
+                                'decreases': '1 + ' + DECR}]))
     API = ['orc_program_add_temporary', 'orc_program_add_source', 'orc_program_add_destination',
            'orc_program_add_accumulator', 'orc_program_add_parameter', 'orc_program_add_parameter_float',
            'orc_program_add_parameter_double', 'orc_program_add_parameter_int64', 'orc_program_add_constant_str',
            'orc_program_set_type_name', 'orc_program_set_var_alignment', 'orc_program_set_constant_n',
            'orc_program_set_n_multiple', 'orc_program_set_n_minimum', 'orc_program_set_n_maximum',
            'orc_program_set_constant_m', 'orc_program_set_2d', 'orc_program_set_name', 'orc_program_set_backup_name',
-           'orc_program_new', 'orc_program_append_str_n', 'orc_vector_append']
+           'orc_program_new', 'orc_program_append_str_n', 'orc_vector_append', 'orc_parse_add_error_valist']
     handlers = ['backup', 'flags', 'dotn', 'dotm', 'source', 'dest', 'accumulator', 'constant_str', 'temporary',
                 'parameter', 'parameter_int64', 'parameter_float', 'parameter_double', 'opcode', 'init']
     for h in handlers:
         fn = 'orc_parse_handle_' + h
-        us.append(core.Unit(fn, SRC, 'h_' + fn, enforce=fn, replace=API, unwind=18, timeout=900, object_bits=12,
+        us.append(core.Unit(fn, SRC, 'h_' + fn, enforce=fn, replace=API + (['orc_parse_find_opcode'] if h == 'opcode' else []), checks=CHECKS_NPO, unwind=34, timeout=900, object_bits=12,
                             cbmc_flags=['--no-array-field-sensitivity']))
+    HF = dict(unwind=34, timeout=900, object_bits=12, cbmc_flags=['--no-array-field-sensitivity'], checks=CHECKS_NPO)
+    us.append(core.Unit('orc_parse_add_error_valist', SRC, 'h_orc_parse_add_error_valist', enforce='orc_parse_add_error_valist',
+                        replace=['orc_vector_append'], **HF))
+    us.append(core.Unit('orc_parse_find_opcode', SRC, 'h_find_opcode', enforce='orc_parse_find_opcode',
+                        loops=[{'function': 'orc_parse_find_opcode', 'file': F, 'anchor': 'for(i=0;i<parser->opcode_set->n_opcodes;i++)',
+                                'invariants': '0 <= i && i <= parser->opcode_set->n_opcodes', 'assigns': 'i',
+                                'decreases': 'parser->opcode_set->n_opcodes - i'}], **HF))
+    us.append(core.Unit('orc_parse_find_line_length', SRC, 'h_find_line_length', enforce='orc_parse_find_line_length', **HF))
+    us.append(core.Unit('orc_parse_advance', SRC, 'h_parse_advance', enforce='orc_parse_advance', **HF))
+    us.append(core.Unit('orc_parse_get_line', SRC, 'h_get_line', enforce='orc_parse_get_line',
+                        replace=['orc_parse_find_line_length', 'orc_parse_advance', '_strndup'], **HF))
+    us.append(core.Unit('orc_parse_handle_function', SRC, 'h_orc_parse_handle_function', enforce='orc_parse_handle_function',
+                        replace=API + ['orc_parse_sanity_check'], **HF))
     if only:
         us = [u for u in us if re.search(only, u.name)]
     return us
